@@ -44,6 +44,16 @@ CHECKS = {
         "Simulated error-free reads; tolerance 1e-9 relative; the shipped NA10860 ratio check is not in the quick tier.",
         "DESIGN.md 5/C07",
     ),
+    "C10": (
+        "recorded-stage recomputation on Hypothesis-generated noisy simulated samples (independent argmin/filter/carry-over) + chain invariants",
+        "genotype() is run on simulated samples with fractional-copy noise layers (competing structures and major solutions), gap 0-0.3 and "
+        "1-3 minor solutions while the returns of estimate_cn, estimate_major, solve_minor_model and estimate_minor are recorded; the major "
+        "filter, both score carry-overs, the rescaling, the final within-gap set, its scores and its order are recomputed independently and "
+        "compared; every reported solution must be a consistent chain (structure/major/minor/diplotype). A drawn stage is forced to return "
+        "nothing: no genotype, the stage's error, the empty simple-output line.",
+        "Recording wraps module attributes (no hook); thresholds within 2e-4 of a cut are not judged.",
+        "DESIGN.md 5/C10",
+    ),
     "C16": (
         "Hypothesis-generated VCF files planting catalogued alleles as standard left-anchored records; expected-evidence oracle + end-to-end call",
         "One or two catalogued alleles of a generated database are written as VCF records (SNP, deletion, insertion, MNP as one record or as "
